@@ -54,12 +54,13 @@ def step32 (s : St) (t : Nat) : Option St :=
   -- `try_publish_leaked_internal_index`
   | .rPub id idx g =>
       if s.tail = g then
-        some (setThr { s with tail := wadd g 1, accepted := s.accepted ++ [s.buf idx] } t
-               (.done (.pubIdx (some (max 1 (wsub g s.head))))))
+        some (setThr { s with tail := wadd g 1, accepted := s.accepted ++ [s.buf idx] } t (.rLen g))
       else match pubReguess32 idx g s.tail s.N with
            | none => none
            | some (some g') => some (setThr s t (.rPub id idx g'))
            | some none => some (setThr s t (.rRet id (.pubIdx none)))
+  -- `u32::max(1, previous_tail.overflowing_sub(head.load()).0)`, `head` loaded after the CAS
+  | .rLen g => some (setThr s t (.done (.pubIdx (some (max 1 (wsub g s.head))))))
   -- `try_unleak_slot_index_internal`
   | .rCan id idx g =>
       if s.enqTail = wadd g 1 then some (setThr { s with enqTail := g } t (.done (.canIdx true)))
@@ -132,6 +133,7 @@ def imgLoc : Loc → Loc
   | .rHold id           => .rHold (wrap id)
   | .rRet id r          => .rRet (wrap id) r
   | .rPub id idx g      => .rPub (wrap id) idx (wrap g)
+  | .rLen g             => .rLen (wrap g)
   | .rCan id idx g      => .rCan (wrap id) idx (wrap g)
   | .cLoadTail id       => .cLoadTail (wrap id)
   | .cRecede id         => .cRecede (wrap id)
